@@ -153,7 +153,7 @@ def cases(draw, pool='lite'):
     return {'dialect': d, 'sql': sql, 'origin': mode}
 
 
-FUZZ_RUNS = {'quick': 15000, 'thorough': 300000}
+FUZZ_RUNS = {'quick': 15000, 'thorough': 100000}
 
 
 def fuzz_part(col, k, tier, seed):
